@@ -80,16 +80,16 @@ func c03One(k *core.Case, m *abs.Msg) {
 func c03(c *core.Ctx) {
 	cm := corpusMsgs()
 	c.Family("corpus", len(cm), func(k *core.Case) { c03One(k, cm[k.Index]) })
-	c.Family("single", c.N(15000, 600000), func(k *core.Case) {
+	c.Family("single", c.N(15000, 2000000), func(k *core.Case) {
 		m := gen.Header(k.R)
 		kinds := gen.AllKinds()
 		m.Payloads = []abs.Payload{gen.Payload(k.R, kinds[k.Index%len(kinds)])}
 		c03One(k, m)
 	})
-	c.Family("mixed", c.N(80000, 4000000), func(k *core.Case) {
+	c.Family("mixed", c.N(80000, 12000000), func(k *core.Case) {
 		c03One(k, gen.Msg(k.R, gen.Opt{AllowBig: true, AllowEmpty: true}))
 	})
-	c.Family("big", c.N(1200, 40000), func(k *core.Case) {
+	c.Family("big", c.N(1200, 120000), func(k *core.Case) {
 		m := gen.Header(k.R)
 		m.Payloads = []abs.Payload{gen.Big(k.R)}
 		c03One(k, m)
@@ -313,13 +313,13 @@ func c05(c *core.Ctx) {
 	cm := corpusMsgs()
 	c.Family("corpus-fwd", len(cm), func(k *core.Case) { c05Forward(k, cm[k.Index]) })
 	c.Family("corpus-bwd", len(cm), func(k *core.Case) { c05Backward(k, cm[k.Index]) })
-	c.Family("fwd", c.N(50000, 2000000), func(k *core.Case) {
+	c.Family("fwd", c.N(50000, 6000000), func(k *core.Case) {
 		c05Forward(k, gen.Msg(k.R, gen.Opt{AllowBig: true, AllowEmpty: true}))
 	})
-	c.Family("bwd", c.N(50000, 2000000), func(k *core.Case) {
+	c.Family("bwd", c.N(50000, 6000000), func(k *core.Case) {
 		c05Backward(k, gen.Msg(k.R, gen.Opt{AllowBig: true, AllowEmpty: true}))
 	})
-	c.Family("bwd-single", c.N(15000, 300000), func(k *core.Case) {
+	c.Family("bwd-single", c.N(15000, 1000000), func(k *core.Case) {
 		m := gen.Header(k.R)
 		kinds := gen.AllKinds()
 		m.Payloads = []abs.Payload{gen.Payload(k.R, kinds[k.Index%len(kinds)])}
